@@ -46,6 +46,10 @@ def build_param(c):
       # one child entry that is active under two parent values (the route protos with multi-valued conditions take)
       child = vz.ParameterConfig.factory('c1', bounds=(0.0, 1.0))
       children = [([PARENT_VAL[c['kind']], PARENT_VAL2[c['kind']]], child)]
+    if c['depth'] == 5:
+      # the same child NAME under two parent values with different settings (a learning rate whose range depends on the model)
+      children = [([PARENT_VAL[c['kind']]], vz.ParameterConfig.factory('c1', bounds=(0.0, 1.0))),
+                  ([PARENT_VAL2[c['kind']]], vz.ParameterConfig.factory('c1', bounds=(0.0, 10.0), scale_type=vz.ScaleType.LINEAR))]
   return vz.ParameterConfig.factory('x', children=children, **kw)
 
 
@@ -75,6 +79,10 @@ def project_param(pc, c):
       pv = sorted(v for k in kids if k.name == 'c1' for v in k.matching_parent_values)
       ok = all(k.name == 'c1' and not k.child_parameter_configs for k in kids) and pv == sorted([PARENT_VAL[c['kind']], PARENT_VAL2[c['kind']]])
       depth = 4 if ok else -4
+    elif c['depth'] == 5:
+      seen = sorted((list(k.matching_parent_values), k.name, tuple(k.bounds)) for k in kids)
+      want = sorted([([PARENT_VAL[c['kind']]], 'c1', (0.0, 1.0)), ([PARENT_VAL2[c['kind']]], 'c1', (0.0, 10.0))])
+      depth = 5 if seen == want else -5
     elif len(kids) != 1 or kids[0].name != 'c1' or list(kids[0].matching_parent_values) != [PARENT_VAL[c['kind']]]:
       depth = -2
     elif kids[0].child_parameter_configs:
@@ -214,6 +222,8 @@ def build_trial(c):
     t.metadata.ns('a:b')['k'] = 'v'
   elif c['meta'] == 'ns_empty_first':
     t.metadata.abs_ns(vz.Namespace(('', 'tuner')))['k'] = 'v'
+  elif c['meta'] == 'ns_colon_chain':
+    t.metadata.abs_ns(vz.Namespace(('gs://b', 'c:d', 'e')))['k'] = 'v'
   return t
 
 
@@ -257,6 +267,8 @@ def project_trial(t, c):
     out['meta'] = 'ns_empty_first'
   elif md == {(':a\\:b', 'k'): 'v'}:
     out['meta'] = 'ns'
+  elif len(md) == 1 and list(md.values()) == ['v'] and tuple(next(iter(ns for ns, _, _ in t.metadata.all_items()))) == ('gs://b', 'c:d', 'e'):
+    out['meta'] = 'ns_colon_chain'
   else:
     out['meta'] = 'other:%r' % (md,)
   if t.id != 7:
